@@ -32,7 +32,11 @@ func (e *fnEnc) instr(in ssa.Instruction) {
 		for _, o := range e.allocs {
 			e.assert(fmt.Sprintf("(not (= %s %s))", ref, o))
 		}
-		for _, p := range e.fn.Params {
+		ps := e.fn.Params
+		if e.rootFn != nil && e.rootFn != e.fn {
+			ps = append(append([]*ssa.Parameter(nil), ps...), e.rootFn.Params...)
+		}
+		for _, p := range ps {
 			if _, isPtr := p.Type().Underlying().(*types.Pointer); isPtr {
 				e.assert(fmt.Sprintf("(not (= %s %s))", ref, e.val[p][0].S))
 			}
@@ -680,11 +684,16 @@ func (e *fnEnc) typeAssert(in *ssa.TypeAssert) {
 }
 
 func (e *fnEnc) ret(in *ssa.Return) {
-	e.retCount++
 	var res []Term
 	for _, r := range in.Results {
 		res = append(res, e.get(r))
 	}
+	if e.inlRets != nil {
+		// return of an inlined callee: recorded, merged by the caller
+		*e.inlRets = append(*e.inlRets, inlRet{reach: e.curReach, res: res, heap: e.curHeap.clone()})
+		return
+	}
+	e.retCount++
 	e.checkPosts(res, in.Pos(), fmt.Sprintf("ret%d", e.retCount))
 }
 
